@@ -4,11 +4,11 @@
 import json, subprocess
 
 CLAIMED = {
- "C03": dict(cat="exploration", tech="differential execution of 4 back ends under generated + boundary workloads; value/failure/host-call-trace comparison monitor",
+ "C03": dict(cat="exploration", tech="differential execution of 4 back ends (plus 2 long-lived public engines) under generated + boundary workloads; value/failure/host-call-trace comparison monitor",
    text="Runs every generated program on vm-switch, vm-callthread (hook), closure and interp with one environment and compares value (exact structural identity), failure class and the ordered host-call trace; size-limit families cross every VM encoding boundary. Exploration is the right level: the property is an equivalence of executions, decided by observing executions.",
    note="Trusted: the harness's value reader (bridge.FromVal), Go runtime. Inputs outside the generators are not covered. vm-callthread >=1024 dispatches is a recorded known finding (D15).", ref="DESIGN.md §4 C03"),
 
- "C01": dict(cat="exploration", tech="invariant monitor: deep walk of every run-time value against the checker's own inferred type, on 4 back ends; -race (checkptr) and -asan builds",
+ "C01": dict(cat="exploration", tech="invariant monitor: deep walk of every run-time value against the checker's own inferred type, on 4 back ends of the plain pipeline plus 2 long-lived public engines; -race (checkptr) and -asan builds",
    text="Every value returned by every back end (and every value handed to a host function) is walked: non-nil, own type equals declared component type at every depth, map-key tags, object slot counts; the oracle uses the real checker's inferred type, so accepted mutants expose unsound acceptance as ill-typed values. All field-order permutations of equal objects are enumerated. Sanitizer builds watch the unsafe.Pointer casts behind each accessor.",
    note="Trusted: bridge.FromVal / reference type equality (cross-checked against types.Equals on every node), Go runtime, race detector / ASan.", ref="DESIGN.md §4 C01"),
  "C02": dict(cat="exploration", tech="outcome-classifier monitor vs reference evaluator (value | documented failure class | internal fault | process death), boundary and size-limit workloads, -race/-asan builds",
@@ -31,7 +31,7 @@ CLAIMED = {
    text="Every successful Lex is checked for order, disjointness, white-space-only gaps, lexeme == input[Idx:IdxEnd] and recomputed line/column, and compared token by token with an independent reference lexer; the input space up to the length bound is enumerated completely.",
    note="Trusted: the reference lexer (documented token forms).", ref="DESIGN.md §4 C09"),
  "C10": dict(cat="exploration", tech="structural monitors on Desugar (core-only, idempotent, input snapshot unchanged, explicit-tree equality) + differential execution of sugared source vs explicit AST",
-   text="Every parsed tree is desugared once and twice and snapshotted field by field before and after the whole pipeline; generated well-typed programs are run both as sugared source and as the explicit call tree built directly as AST nodes and must agree in acceptance, type, outcome and host-call trace on 4 back ends.",
+   text="Every parsed tree is desugared once and twice and snapshotted field by field before and after the whole pipeline; generated well-typed programs are run both as sugared source and as the explicit call tree built directly as AST nodes and must agree in acceptance, type, outcome and host-call trace on 4 back ends of the plain pipeline plus 2 long-lived public engines.",
    note="Trusted: harness AST builder (bridge.ToAST), reflection-based snapshot. (o.f)(x) double-desugar is a recorded known finding (D22).", ref="DESIGN.md §4 C10"),
  "C11": dict(cat="exploration", tech="bytecode verifier monitor (independent instruction-set description + abstract interpretation) over hooked code bytes / constant pool / deferred bodies of every emitted program",
    text="Each program the compiler emits for the C02/C03 workloads, constant-pad families and tree-built programs beyond the 16-bit limits is decoded and abstractly interpreted: known opcodes, operand ranges and kinds, forward jumps to instruction boundaries, path-independent non-negative stack depth, exactly one value at the final return, deferred bodies recursively.",
@@ -65,7 +65,7 @@ CLAIMED = {
  "C15": dict(cat="exploration", tech="reference-converter monitor over reflection-built Go types and values (expectation generated with the value); type-stability pairs; error-class table",
    text="ValOf / TypeOf on generated Go values of every numeric kind, strings, times, pointers, slices, arrays, maps, structs with tag variants and interface boxing: well-formedness walk, TypeOf == ValOf.Type == shape-dictated type, content equality, equal types for two values of one interface-free Go type incl. 'compile against one, invoke with the other', and an error (not a panic, not success) for 26 unsupported / inconsistent inputs.",
    note="Trusted: props/hostgen.go expectation logic.", ref="DESIGN.md §4 C15"),
- "C16": dict(cat="exploration", tech="exhaustive misuse table (every built-in x every typed parameter position given an optional) + random programs over present/absent optionals on 4 back ends and over host structs with nil pointers",
+ "C16": dict(cat="exploration", tech="exhaustive misuse table (every built-in x every typed parameter position given an optional) + random programs over present/absent optionals on 4 back ends of the plain pipeline plus 2 long-lived public engines and over host structs with nil pointers",
    text="Every typed parameter position of every built-in, every access form and 21 misuse shapes receive an optional of exactly the required type and must be refused by the checker; get(optional, default) and random accepted programs over absent data must agree with the reference evaluator and never end in an internal fault; absent untagged pointers are never read as values.",
    note="Trusted: reference checker / evaluator; bare-type-variable parameters accept optionals by design.", ref="DESIGN.md §4 C16"),
 }
